@@ -1,5 +1,7 @@
 import GramModel.Lemmas.Lexer
 import GramModel.Lemmas.LexerRender
+import GramModel.Lemmas.TerminatorKind
+import GramModel.Lemmas.ParsePrinted2
 
 /-!
 # C10 — comments, spacing and line layout do not change a program's meaning
@@ -358,3 +360,260 @@ example : ∃ ts ts', tokenize C10_cc (renderText [.newline] C10_itemsB none) = 
     ['2'] ['y'] (.integerLiteral 2) (.identifier ['y']) [.newline] [.blank ' '] [] none none
     C10_renderingB C10_renderingC (by decide) (by decide) (by decide) (by decide)
 
+
+/-! ## Parser clause: a separating line break is interchangeable with `;`
+
+`PModel.SameUpToTerminator toks toks'` (`Lemmas/TerminatorKind.lean`): same length and, index by index,
+the same range and the same kind, except that a terminator of one kind (`;` / line break) may stand
+where a terminator of the other kind stands.  The parser model reads the token array only through
+primitives that cannot tell the two apart, so all 36 parsing functions are *equal as functions* on
+`toks` and `toks'`.
+
+Error *messages* are not modelled (an error is the list of ranges it lists).  In `parser.rs` the
+terminator type is inspected in exactly two places, both inside message closures: `error_factory`
+("Expected … at the end of this line:" for a line break, "Expected …, but encountered `;`." otherwise)
+and the "This parenthesis was never closed" message of `parse_group` ("expected to be closed at the end
+of this line" / "before this"); the listed ranges are the same.  So the equalities below are equalities
+of results *modulo the wording of error messages*. -/
+
+/-- The parse phase does not see the terminator kind: `runParser` returns the same result (same tree
+with the same ranges, `group` flags and recorded errors, same `next`, same `confident`) **and** the same
+final state (memo table, hit/miss counters) — or runs out of fuel on both. -/
+def C10_terminator_kind_irrelevant_stmt : Prop :=
+  ∀ (toks toks' : Array PModel.PTok), PModel.SameUpToTerminator toks toks' →
+    PModel.runParser toks' = PModel.runParser toks
+theorem C10_terminator_kind_irrelevant : C10_terminator_kind_irrelevant_stmt :=
+  fun _ _ h => PModel.runParser_terminator_kind h
+
+/-- The same for every memoised parsing function, every fuel, start position and start state, and for
+the cache-free functions `parsePure`; already the 36 bodies agree, whatever the recursive call is. -/
+def C10_terminator_kind_irrelevant_everywhere_stmt : Prop :=
+  ∀ (toks toks' : Array PModel.PTok), PModel.SameUpToTerminator toks toks' →
+    (∀ (rec : PModel.NT → Nat → PModel.ParseM PModel.PResult) (nt : PModel.NT) (start : Nat),
+      PModel.parseBody toks' rec nt start = PModel.parseBody toks rec nt start) ∧
+    (∀ (fuel : Nat) (nt : PModel.NT) (start : Nat) (st : PModel.PState),
+      PModel.parseNT toks' fuel nt start st = PModel.parseNT toks fuel nt start st) ∧
+    (∀ (fuel : Nat) (nt : PModel.NT) (start : Nat) (st : PModel.PState),
+      PModel.parsePure toks' fuel nt start st = PModel.parsePure toks fuel nt start st)
+theorem C10_terminator_kind_irrelevant_everywhere :
+    C10_terminator_kind_irrelevant_everywhere_stmt := by
+  intro toks toks' h
+  refine ⟨fun rec nt start => (PModel.parseBody_congr h rec nt start).symm, ?_, ?_⟩
+  · intro fuel nt start st; rw [PModel.parseNT_congr h fuel]
+  · intro fuel nt start st; rw [PModel.parsePure_congr h fuel]
+
+/-- The whole front end model `parse` (parser, re-association, resolution, definition-order check)
+returns the same outcome; so do the cache statistics. -/
+def C10_parse_terminator_irrelevant_stmt : Prop :=
+  ∀ (toks toks' : Array PModel.PTok) (context : List Name), PModel.SameUpToTerminator toks toks' →
+    PModel.parseModel toks' context = PModel.parseModel toks context ∧
+    PModel.parseStats toks' = PModel.parseStats toks
+theorem C10_parse_terminator_irrelevant : C10_parse_terminator_irrelevant_stmt :=
+  fun _ _ context h =>
+    ⟨PModel.parseModel_terminator_kind h context, PModel.parseStats_terminator_kind h⟩
+
+/-- Respelling the terminators of a token array by any function of the terminator type (line break ↦
+`;`, `;` ↦ line break, swap, …) changes nothing. -/
+def C10_respell_terminators_stmt : Prop :=
+  ∀ (f : PModel.TerminatorType → PModel.TerminatorType) (toks : Array PModel.PTok)
+    (context : List Name),
+    PModel.SameUpToTerminator toks (toks.map (PModel.PTok.respell f)) ∧
+    PModel.runParser (toks.map (PModel.PTok.respell f)) = PModel.runParser toks ∧
+    PModel.parseModel (toks.map (PModel.PTok.respell f)) context = PModel.parseModel toks context
+theorem C10_respell_terminators : C10_respell_terminators_stmt :=
+  fun f toks context =>
+    have h := PModel.sameUpToTerminator_respell f toks
+    ⟨h, PModel.runParser_terminator_kind h, PModel.parseModel_terminator_kind h context⟩
+
+/-- `SameUpToTerminator` is exactly "equal once every terminator is spelled `;`" (hence decidable), and
+an equivalence relation. -/
+def C10_same_up_to_terminator_char_stmt : Prop :=
+  (∀ (toks toks' : Array PModel.PTok),
+    PModel.SameUpToTerminator toks toks' ↔
+      toks.map PModel.PTok.canon = toks'.map PModel.PTok.canon) ∧
+  (∀ toks, PModel.SameUpToTerminator toks toks) ∧
+  (∀ toks toks', PModel.SameUpToTerminator toks toks' → PModel.SameUpToTerminator toks' toks) ∧
+  (∀ a b c, PModel.SameUpToTerminator a b → PModel.SameUpToTerminator b c →
+    PModel.SameUpToTerminator a c)
+theorem C10_same_up_to_terminator_char : C10_same_up_to_terminator_char_stmt :=
+  ⟨PModel.sameUpToTerminator_iff_canon, PModel.SameUpToTerminator.refl,
+    fun _ _ h => h.symm, fun _ _ _ h1 h2 => h1.trans h2⟩
+
+/-! ### With the tokenizer law: a `;` lexeme versus a line break in one gap -/
+
+/-- Tokenizer side.  Two renderings of the same lexemes that differ in one gap between a lexeme that
+can end an expression and one that can start one: a line break in the first, a `;` lexeme with no line
+break around it in the second.  The token kinds are `A ++ ⏎ :: B` and `A ++ ; :: B` for the same `A`,
+`B`. -/
+def C10_semicolon_vs_linebreak_stmt : Prop :=
+  ∀ (cc : CharClass), cc.Sane2 → ∀ (g0 g0' : Gap) (pre post : List LexItem) (l l2 : List Char)
+    (k k2 : TokKind) (g g1 g3 g2 : Gap) (eof eof' : Option (List Char)),
+    Rendering cc g0 (pre ++ (l, k, g) :: (l2, k2, g2) :: post) eof →
+    Rendering cc g0' (pre ++ (l, k, g1) :: ([';'], .terminatorSemicolon, g3) :: (l2, k2, g2) :: post)
+      eof' →
+    Gap.hasNL g = true → Gap.hasNL g1 = false → Gap.hasNL g3 = false →
+    Generated.canEnd k = some true → Generated.canStart k2 = some true →
+    ∃ ts ts' A B, tokenize cc (renderText g0 (pre ++ (l, k, g) :: (l2, k2, g2) :: post) eof) = .ok ts ∧
+      tokenize cc (renderText g0'
+        (pre ++ (l, k, g1) :: ([';'], .terminatorSemicolon, g3) :: (l2, k2, g2) :: post) eof') = .ok ts' ∧
+      ts.map (·.kind) = A ++ .terminatorLineBreak :: B ∧
+      ts'.map (·.kind) = A ++ .terminatorSemicolon :: B
+theorem C10_semicolon_vs_linebreak : C10_semicolon_vs_linebreak_stmt := by
+  intro cc hs g0 g0' pre post l l2 k k2 g g1 g3 g2 eof eof' h h' hg hg1 hg3 hk hk2
+  obtain ⟨ts, h1, h2⟩ := h.law hs
+  obtain ⟨ts', h1', h2'⟩ := h'.law hs
+  refine ⟨ts, ts', weave (lexFlags (pre ++ [(l, k, g)])), weave (lexFlags ((l2, k2, g2) :: post)),
+    h1, h1', ?_, ?_⟩
+  · rw [h2, lexFlags_append, lexFlags_append]
+    simp only [lexFlags, List.map_cons, List.map_nil]
+    rw [weave_split]
+    simp [sepKinds, hg, hk, hk2]
+  · rw [h2', lexFlags_append, lexFlags_append]
+    simp only [lexFlags, List.map_cons, List.map_nil]
+    rw [weave_split, weave_last _ k (Gap.hasNL g1) (Gap.hasNL g), weave_cons_cons]
+    simp [sepKinds, hg1, hg3]
+
+/-- A tokenizer token as a parser token (`I` interns identifier spellings). -/
+def C10_toPTok (I : List Char → Name) (t : Tok) : PModel.PTok :=
+  ⟨PModel.kindP I t.kind, ⟨t.start, t.stop⟩⟩
+
+/-- End to end, up to ranges (the byte ranges of two different texts differ in general, so the two
+kind streams are laid over an arbitrary common list of ranges): under the hypotheses of
+`C10_semicolon_vs_linebreak` the two token streams have the same length, and as parser input they are
+`SameUpToTerminator`, parse to the same result and give the same outcome of the front end. -/
+def C10_semicolon_vs_linebreak_parse_stmt : Prop :=
+  ∀ (cc : CharClass), cc.Sane2 → ∀ (g0 g0' : Gap) (pre post : List LexItem) (l l2 : List Char)
+    (k k2 : TokKind) (g g1 g3 g2 : Gap) (eof eof' : Option (List Char)),
+    Rendering cc g0 (pre ++ (l, k, g) :: (l2, k2, g2) :: post) eof →
+    Rendering cc g0' (pre ++ (l, k, g1) :: ([';'], .terminatorSemicolon, g3) :: (l2, k2, g2) :: post)
+      eof' →
+    Gap.hasNL g = true → Gap.hasNL g1 = false → Gap.hasNL g3 = false →
+    Generated.canEnd k = some true → Generated.canStart k2 = some true →
+    ∃ ts ts', tokenize cc (renderText g0 (pre ++ (l, k, g) :: (l2, k2, g2) :: post) eof) = .ok ts ∧
+      tokenize cc (renderText g0'
+        (pre ++ (l, k, g1) :: ([';'], .terminatorSemicolon, g3) :: (l2, k2, g2) :: post) eof') = .ok ts' ∧
+      ts.length = ts'.length ∧
+      ∀ (I : List Char → Name) (rs : List PModel.SourceRange) (context : List Name),
+        let toks := (List.zipWith PModel.PTok.mk (ts.map fun t => PModel.kindP I t.kind) rs).toArray
+        let toks' := (List.zipWith PModel.PTok.mk (ts'.map fun t => PModel.kindP I t.kind) rs).toArray
+        PModel.SameUpToTerminator toks toks' ∧ PModel.runParser toks' = PModel.runParser toks ∧
+        PModel.parseModel toks' context = PModel.parseModel toks context
+theorem C10_semicolon_vs_linebreak_parse : C10_semicolon_vs_linebreak_parse_stmt := by
+  intro cc hs g0 g0' pre post l l2 k k2 g g1 g3 g2 eof eof' h h' hg hg1 hg3 hk hk2
+  obtain ⟨ts, ts', A, B, h1, h1', e, e'⟩ :=
+    C10_semicolon_vs_linebreak cc hs g0 g0' pre post l l2 k k2 g g1 g3 g2 eof eof' h h' hg hg1 hg3 hk hk2
+  refine ⟨ts, ts', h1, h1', ?_, ?_⟩
+  · have := congrArg List.length e
+    have := congrArg List.length e'
+    simp only [List.length_map, List.length_append, List.length_cons] at *
+    omega
+  · intro I rs context toks toks'
+    have hk : PModel.All₂ PModel.KindSim (ts.map fun t => PModel.kindP I t.kind)
+        (ts'.map fun t => PModel.kindP I t.kind) := by
+      have m : ∀ l : List Tok, (l.map fun t => PModel.kindP I t.kind) = (l.map (·.kind)).map (PModel.kindP I) := by
+        intro l; simp
+      rw [m, m, e, e']
+      simp only [List.map_append, List.map_cons]
+      exact PModel.All₂.append (PModel.All₂.refl PModel.KindSim.refl _)
+        (.cons (PModel.KindSim.terminators _ _) (PModel.All₂.refl PModel.KindSim.refl _))
+    have hsame : PModel.SameUpToTerminator toks toks' := PModel.sameUpToTerminator_zipWith hk rs
+    exact ⟨hsame, PModel.runParser_terminator_kind hsame,
+      PModel.parseModel_terminator_kind hsame context⟩
+
+/-! ### Non-vacuity of the parser clause -/
+
+/-- `x = 1⏎x` (bytes `x`0 `=`2 `1`4 `⏎`5 `x`6). -/
+def C10_toksLB : Array PModel.PTok := #[
+  ⟨.identifier 1, ⟨0, 1⟩⟩, ⟨.equals, ⟨2, 3⟩⟩, ⟨.integerLiteral 1, ⟨4, 5⟩⟩,
+  ⟨.terminator .lineBreak, ⟨5, 6⟩⟩, ⟨.identifier 1, ⟨6, 7⟩⟩]
+/-- `x = 1;x`: the same ranges. -/
+def C10_toksSC : Array PModel.PTok := #[
+  ⟨.identifier 1, ⟨0, 1⟩⟩, ⟨.equals, ⟨2, 3⟩⟩, ⟨.integerLiteral 1, ⟨4, 5⟩⟩,
+  ⟨.terminator .semicolon, ⟨5, 6⟩⟩, ⟨.identifier 1, ⟨6, 7⟩⟩]
+
+example : PModel.SameUpToTerminator C10_toksLB C10_toksSC ∧ C10_toksLB ≠ C10_toksSC := by decide
+example : C10_toksSC = C10_toksLB.map (PModel.PTok.respell fun _ => .semicolon) := by decide +kernel
+
+/-- What the examples observe of a parse result: the recorded errors, `next`, `confident`, and every
+node of the tree in preorder (range, `group`). -/
+def C10_obs (r : PModel.PResult) :
+    (List PModel.PErr × Nat × Bool) × List (PModel.SourceRange × Bool) × List PModel.SourceRange :=
+  ((PModel.collectErrors r.term, r.next, r.confident), r.term.nodes, r.term.binders)
+
+-- both spellings, evaluated by the kernel independently of the theorem: the let `0..7` with definition
+-- `4..5` and body `6..7`, all 5 tokens consumed, no error
+example : ∃ r st, PModel.runParser C10_toksLB = some (r, st) ∧
+    C10_obs r = (([], 5, true), [(⟨0, 7⟩, false), (⟨4, 5⟩, false), (⟨6, 7⟩, false)], [⟨0, 1⟩]) :=
+  PModel.runParser_eval C10_toksLB 40 C10_obs _ (by decide +kernel)
+example : ∃ r st, PModel.runParser C10_toksSC = some (r, st) ∧
+    C10_obs r = (([], 5, true), [(⟨0, 7⟩, false), (⟨4, 5⟩, false), (⟨6, 7⟩, false)], [⟨0, 1⟩]) :=
+  PModel.runParser_eval C10_toksSC 40 C10_obs _ (by decide +kernel)
+-- … and by the theorem: literally the same result and memo table
+example : PModel.runParser C10_toksSC = PModel.runParser C10_toksLB :=
+  C10_terminator_kind_irrelevant _ _ (by decide)
+
+/-- `( 1⏎x` / `( 1;x`: the recovery scan of `parse_group` stops at the terminator (either kind). -/
+def C10_toksLB2 : Array PModel.PTok := #[
+  ⟨.leftParen, ⟨0, 1⟩⟩, ⟨.integerLiteral 1, ⟨2, 3⟩⟩, ⟨.terminator .lineBreak, ⟨3, 4⟩⟩,
+  ⟨.identifier 1, ⟨4, 5⟩⟩]
+def C10_toksSC2 : Array PModel.PTok := #[
+  ⟨.leftParen, ⟨0, 1⟩⟩, ⟨.integerLiteral 1, ⟨2, 3⟩⟩, ⟨.terminator .semicolon, ⟨3, 4⟩⟩,
+  ⟨.identifier 1, ⟨4, 5⟩⟩]
+example : PModel.SameUpToTerminator C10_toksLB2 C10_toksSC2 := by decide
+-- the "never closed" error lists the parenthesis `0..1` and the terminator `3..4` in both
+example : ∃ r st, PModel.runParser C10_toksLB2 = some (r, st) ∧
+    (PModel.collectErrors r.term, r.next, r.confident) = ([[⟨0, 1⟩, ⟨3, 4⟩]], 2, false) :=
+  PModel.runParser_eval C10_toksLB2 40 (fun r => (PModel.collectErrors r.term, r.next, r.confident)) _
+    (by decide +kernel)
+example : ∃ r st, PModel.runParser C10_toksSC2 = some (r, st) ∧
+    (PModel.collectErrors r.term, r.next, r.confident) = ([[⟨0, 1⟩, ⟨3, 4⟩]], 2, false) :=
+  PModel.runParser_eval C10_toksSC2 40 (fun r => (PModel.collectErrors r.term, r.next, r.confident)) _
+    (by decide +kernel)
+
+/-- `x=1⏎x`: a line break between `1` and `x`. -/
+def C10_itemsLB : List LexItem :=
+  [(['x'], .identifier ['x'], []), (['='], .equals, []), (['1'], .integerLiteral 1, [.newline]),
+   (['x'], .identifier ['x'], [])]
+/-- `x=1;x`: a `;` lexeme there instead. -/
+def C10_itemsSC : List LexItem :=
+  [(['x'], .identifier ['x'], []), (['='], .equals, []), (['1'], .integerLiteral 1, []),
+   ([';'], .terminatorSemicolon, []), (['x'], .identifier ['x'], [])]
+theorem C10_renderingLB : Rendering C10_cc [] C10_itemsLB none :=
+  Rendering.of_check (by decide) (by decide) eofOK_none (by decide)
+theorem C10_renderingSC : Rendering C10_cc [] C10_itemsSC none :=
+  Rendering.of_check (by decide) (by decide) eofOK_none (by decide)
+example : renderText [] C10_itemsLB none = ['x','=','1','\n','x'] ∧
+    renderText [] C10_itemsSC none = ['x','=','1',';','x'] := by decide
+-- the hypotheses of `C10_semicolon_vs_linebreak(_parse)` hold together
+example : ∃ ts ts', tokenize C10_cc (renderText [] C10_itemsLB none) = .ok ts ∧
+    tokenize C10_cc (renderText [] C10_itemsSC none) = .ok ts' ∧ ts.length = ts'.length ∧
+    ∀ (I : List Char → Name) (rs : List PModel.SourceRange) (context : List Name),
+      let toks := (List.zipWith PModel.PTok.mk (ts.map fun t => PModel.kindP I t.kind) rs).toArray
+      let toks' := (List.zipWith PModel.PTok.mk (ts'.map fun t => PModel.kindP I t.kind) rs).toArray
+      PModel.SameUpToTerminator toks toks' ∧ PModel.runParser toks' = PModel.runParser toks ∧
+      PModel.parseModel toks' context = PModel.parseModel toks context :=
+  C10_semicolon_vs_linebreak_parse C10_cc C10_cc_sane2 [] [] (C10_itemsLB.take 2) [] ['1'] ['x']
+    (.integerLiteral 1) (.identifier ['x']) [.newline] [] [] [] none none
+    C10_renderingLB C10_renderingSC (by decide) (by decide) (by decide) (by decide) (by decide)
+-- here the two texts even have the same byte ranges: the tokenizer's own tokens, converted, are
+-- `SameUpToTerminator` (kernel-evaluated), so the front end gives the same outcome on the two texts
+example : ∀ (I : List Char → Name) (context : List Name),
+    match tokenize C10_cc ['x','=','1','\n','x'], tokenize C10_cc ['x','=','1',';','x'] with
+    | .ok ts, .ok ts' =>
+        PModel.parseModel (ts'.map (C10_toPTok I)).toArray context
+          = PModel.parseModel (ts.map (C10_toPTok I)).toArray context
+    | _, _ => False := by
+  intro I context
+  have e1 : tokenize C10_cc ['x','=','1','\n','x'] = .ok [⟨.identifier ['x'], 0, 1⟩, ⟨.equals, 1, 2⟩,
+      ⟨.integerLiteral 1, 2, 3⟩, ⟨.terminatorLineBreak, 3, 4⟩, ⟨.identifier ['x'], 4, 5⟩] := by decide
+  have e2 : tokenize C10_cc ['x','=','1',';','x'] = .ok [⟨.identifier ['x'], 0, 1⟩, ⟨.equals, 1, 2⟩,
+      ⟨.integerLiteral 1, 2, 3⟩, ⟨.terminatorSemicolon, 3, 4⟩, ⟨.identifier ['x'], 4, 5⟩] := by decide
+  rw [e1, e2]
+  refine (C10_parse_terminator_irrelevant _ _ context ?_).1
+  apply PModel.sameUpToTerminator_of_forall₂
+  simp only [List.map_cons, List.map_nil, C10_toPTok, PModel.kindP]
+  repeat first
+    | exact .nil
+    | refine .cons ⟨rfl, ?_⟩ ?_
+    | exact PModel.KindSim.refl _
+    | exact PModel.KindSim.terminators _ _
